@@ -12,20 +12,37 @@ STUBS_META = STUBS_ASSIGN + ["data frame -> FakeFrame dict-of-lists (height, wid
                              "get_string_width -> recording stub returning a per-cell constant"]
 
 
-def assign(heights, subs, grps, nrow, add, new_page):
-    """real PageBreakCalculator._assign_pages on n rows -> list of page numbers"""
+def assign(heights, subs, grps, nrow, add, new_page, conts=None):
+    """real PageBreakCalculator._assign_pages on n rows -> list of page numbers.
+    conts[i] = heading rows repeated at the top of a page that row i opens as a continuation of its group."""
     saved = core.pl
     core.pl = PLStub
     try:
         rows = [{"row_index": i, "total_rows": h, "is_subline_start": s, "is_group_start": g, "page": 0}
                 for i, (h, s, g) in enumerate(zip(heights, subs, grps))]
+        if conts is not None:
+            for r, c in zip(rows, conts):
+                r["continuation_header_rows"] = c
         out = PBC._assign_pages(NS(pagination=NS(nrow=nrow)), MetaFrame(rows), add, new_page)
         return [r["page"] for r in out.rows]
     finally:
         core.pl = saved
 
 
-def breaks_iff_required(pages, heights, subs, grps, nrow, add, new_page):
+def _fill(pages, heights, conts, upto, page):
+    """lines on `page` counting rows < upto: continuation heading of the page's first row + data heights"""
+    fill = 0
+    first = True
+    for j in range(upto):
+        if pages[j] == page:
+            if first and page != pages[0] and conts is not None:
+                fill += conts[j]
+            first = False
+            fill += heights[j]
+    return fill
+
+
+def breaks_iff_required(pages, heights, subs, grps, nrow, add, new_page, conts=None):
     """C04 oracle, stated on the returned assignment (not a mirror of the loop)."""
     n = len(pages)
     avail = nrow - add
@@ -37,10 +54,7 @@ def breaks_iff_required(pages, heights, subs, grps, nrow, add, new_page):
         return False
     for i in range(1, n):
         forced = subs[i] or (new_page and grps[i])
-        fill = 0
-        for j in range(i):
-            if pages[j] == pages[i - 1]:
-                fill += heights[j]
+        fill = _fill(pages, heights, conts, i, pages[i - 1])
         if pages[i] == pages[i - 1]:
             if forced or fill + heights[i] > avail:
                 return False
@@ -52,18 +66,16 @@ def breaks_iff_required(pages, heights, subs, grps, nrow, add, new_page):
     return True
 
 
-def budget_ok(pages, heights, nrow, add):
-    """C03 oracle: every page holding >= 2 rows stays within max(1, nrow - add)."""
+def budget_ok(pages, heights, nrow, add, conts=None):
+    """C03 oracle: every page holding >= 2 rows stays within max(1, nrow - add), the heading repeated at the top of
+    a continuation page included."""
     avail = nrow - add
     if avail < 1:
         avail = 1
     for p in set(pages):
         idx = [i for i, q in enumerate(pages) if q == p]
         if len(idx) > 1:
-            tot = 0
-            for i in idx:
-                tot += heights[i]
-            if tot > avail:
+            if _fill(pages, heights, conts, len(pages), p) > avail:
                 return False
     return True
 
@@ -123,3 +135,93 @@ def sig(n, spec, extra=""):
 
 def lst(n, nm):
     return "[" + ", ".join("%s%d" % (nm, i) for i in range(n)) + "]"
+
+
+# ---------------------------------------------------------------------------------------------------------
+# chained pipeline: metadata -> pages -> group headers / boundaries -> render (token services)
+# ---------------------------------------------------------------------------------------------------------
+from rtflite.encoding.renderer import PageRenderer  # noqa: E402
+from rtflite.pagination.strategies.grouping import PageByStrategy  # noqa: E402
+
+
+class TokenEnc:
+    def encode_title(self, t, method="line"):
+        return "TITLE"
+
+    def encode_subline(self, t, method="line"):
+        return "SUBLINE"
+
+    def encode_footnote(self, f, page_number=None, page_col_width=None, border_style=None):
+        return [("FOOTNOTE", "table" if getattr(f, "as_table", True) else "par", border_style)]
+
+    def encode_source(self, s, page_number=None, page_col_width=None, border_style=None):
+        return [("SOURCE", "table" if getattr(s, "as_table", False) else "par", border_style)]
+
+    def encode_spanning_row(self, text, page_width, rtf_body_attrs=None, col_idx=0):
+        return [("SPAN", text, col_idx)]
+
+    def encode_column_header(self, df, attrs, w):
+        if df is None and not getattr(attrs, "text", None):
+            return None
+        return [("HROW",)]
+
+
+class TokenDoc:
+    def generate_page_break(self, document):
+        return "BREAK"
+
+
+class TokenFig:
+    def encode_figure(self, f):
+        return "FIG"
+
+
+def token_renderer(real_headers=False):
+    r = PageRenderer.__new__(PageRenderer)
+    r.encoding_service = TokenEnc()
+    r.document_service = TokenDoc()
+    r.figure_service = TokenFig()
+    return r
+
+
+def row_attrs():
+    return NS(_encode=lambda seg, cw, row_offset=0: [("ROW", seg.row(i)[-1], row_offset + i) for i in range(seg.height)])
+
+
+def chain(cols, page_by, heights, nrow, add, new_page, pageby_row, subline_by=None):
+    """Run the real metadata -> _assign_pages -> _get_group_headers/_detect_group_boundaries -> render chain on a
+    FakeFrame whose last column 'v' holds the row tags r0..; returns (meta_rows, [tokens per page]).
+    The paginate() glue (unique pages, [min,max] slice) is mirrored here because it runs inside polars."""
+    n = len(heights)
+    tags = ["r%d" % i for i in range(n)]
+    W = {t: h - 0.5 for t, h in zip(tags, heights)}
+    cols = dict(cols)
+    cols["v"] = tags
+    removed = [i for i, c in enumerate(cols) if c != "v"]
+    rows = metadata(cols, [1.0], page_by, subline_by, removed, nrow, add, new_page,
+                    lambda t, f, s: W.get(t, 0.5))
+    df = FakeFrame(cols)
+    strat = PageByStrategy()
+    pages = []
+    r = token_renderer()
+    r._render_column_headers = lambda d, p: []
+    pnums = []
+    for m in rows:
+        if m["page"] not in pnums:
+            pnums.append(m["page"])
+    for p in pnums:
+        idx = [m["row_index"] for m in rows if m["page"] == p]
+        start, end = min(idx), max(idx)
+        info = strat._get_group_headers(df, page_by, start) if page_by else None
+        gb = strat._detect_group_boundaries(df, page_by, start, end) if page_by else []
+        page = NS(is_first_page=(p == pnums[0]), is_last_page=(p == pnums[-1]), subline_header=None, needs_header=False,
+                  pageby_header_info=info, group_boundaries=gb or None, component_borders={}, page_number=p,
+                  final_body_attrs=row_attrs(), table_attrs=None, data=df.slice(start, end - start + 1).select(["v"]),
+                  col_widths=[1.0])
+        doc = NS(rtf_title=None, rtf_subline=None, rtf_page=NS(page_title="all", page_footnote="last", page_source="last",
+                                                               col_width=6.0),
+                 rtf_figure=None, rtf_column_header=[], rtf_footnote=None, rtf_source=None, df=None,
+                 rtf_body=NS(new_page=new_page, pageby_row=pageby_row, page_by=page_by, subline_by=subline_by))
+        out = [x for x in PageRenderer.render(r, doc, page) if isinstance(x, tuple)]
+        pages.append(out)
+    return rows, pages
